@@ -231,8 +231,11 @@ Proof. exact pairs_are_rowwise. Qed.
 
 
 (* non-vacuity. A polyline with a zero-length segment has segments; and concrete inputs meet the hypotheses of every
-   conditional sub-path theorem: open polyline (0,0,0)-(4,0,0) with a = (1,1,0), b = (3,1,0) (forward) and exchanged
-   (backward); closed triangle (0,0,0)-(4,0,0)-(4,3,0) with a = (1,-1,0), b = (3,-1,0) (forward) and exchanged (wrap). *)
+   conditional sub-path theorem (all about the ORIGINAL polyline): open polyline (0,0,0)-(4,0,0) with a = (1,1,0),
+   b = (3,1,0) for C07_sliced_at_points_open_spec; a closed triangle for C07_sliced_at_points_closed_spec, once with both
+   points on an ordinary edge and once with both on the closing edge; the decision theorem's hypotheses (open / closed);
+   an L-shaped open polyline on which the flip really happens for C07_aligned_along_subsegment_open_spec, and a closed
+   triangle for C07_aligned_along_subsegment_closed_spec. *)
 Example C07_has_segments : pl_segments (MkPolyline [V3 0 0 0; V3 1 0 0; V3 1 0 0] true) <> [].
 Proof. cbn. discriminate. Qed.
 Example C07_sliced_open_spec_inhabited : exists pl a b ra rb,
